@@ -1,3 +1,4 @@
 pub mod optests;
 pub mod refhash;
 pub mod refserde;
+pub mod unknownop;
